@@ -6,8 +6,8 @@ export GOFLAGS=-mod=mod GOPROXY=off GOSUMDB=off GOTOOLCHAIN=local
 demo=$(readlink -f "$1"); repo=${2:-/repo}
 tmp=$(mktemp -d /var/tmp/finding-XXXXXX)
 printf '{"Replace":{"%s/zz_finding_demo_test.go":"%s"}}' "$repo" "$demo" > $tmp/ov.json
-(cd $repo && go test -overlay $tmp/ov.json -vet=off -count=1 -timeout 120s -run 'TestFinding' . 2>&1 | tail -25)
+(cd $repo && go test $FINDING_FLAGS -overlay $tmp/ov.json -vet=off -count=1 -timeout 120s -run 'TestFinding' . 2>&1 | tail -25)
 rc=$?
-(cd $repo && go test -overlay $tmp/ov.json -vet=off -count=1 -timeout 120s -run 'TestFinding' . >/dev/null 2>&1); rc=$?
+(cd $repo && go test $FINDING_FLAGS -overlay $tmp/ov.json -vet=off -count=1 -timeout 120s -run 'TestFinding' . >/dev/null 2>&1); rc=$?
 rm -rf $tmp
 exit $rc
